@@ -15,6 +15,7 @@ import (
 
 var (
 	errInvalidRange = errors.New("Invalid range string")
+	errInvalidScore = errors.New("ERR value is not a valid float")
 )
 
 func getScoreRange(left []byte, right []byte) (float64, float64, error) {
@@ -37,7 +38,7 @@ func getScoreRange(left []byte, right []byte) (float64, float64, error) {
 		if err != nil {
 			return leftRange, rightRange, err
 		}
-		if leftRange <= common.MinScore || leftRange >= common.MaxScore {
+		if math.IsNaN(leftRange) || leftRange <= common.MinScore || leftRange >= common.MaxScore {
 			return leftRange, rightRange, errInvalidRange
 		}
 		if isLOpen {
@@ -58,7 +59,7 @@ func getScoreRange(left []byte, right []byte) (float64, float64, error) {
 		if err != nil {
 			return leftRange, rightRange, err
 		}
-		if rightRange <= common.MinScore || rightRange >= common.MaxScore {
+		if math.IsNaN(rightRange) || rightRange <= common.MinScore || rightRange >= common.MaxScore {
 			return leftRange, rightRange, errInvalidRange
 		}
 		if isROpen {
@@ -412,9 +413,12 @@ func (nd *KVNode) zincrbyCommand(cmd redcon.Command) (interface{}, error) {
 		err := fmt.Errorf("ERR wrong number arguments for '%v' command", string(cmd.Args[0]))
 		return nil, err
 	}
-	_, err := strconv.ParseFloat(string(cmd.Args[2]), 64)
+	delta, err := strconv.ParseFloat(string(cmd.Args[2]), 64)
 	if err != nil {
 		return nil, err
+	}
+	if math.IsNaN(delta) {
+		return nil, errInvalidScore
 	}
 
 	v, err := rebuildFirstKeyAndPropose(nd, cmd, func(cmd redcon.Command, r interface{}) (interface{}, error) {
@@ -492,6 +496,9 @@ func getScorePairs(args [][]byte) ([]common.ScorePair, error) {
 		if err != nil {
 			return nil, err
 		}
+		if math.IsNaN(s) {
+			return nil, errInvalidScore
+		}
 		mlist = append(mlist, common.ScorePair{Score: s, Member: args[i+1]})
 	}
 
@@ -514,6 +521,9 @@ func (kvsm *kvStoreSM) localZincrbyCommand(cmd redcon.Command, ts int64) (interf
 	delta, err := strconv.ParseFloat(string(cmd.Args[2]), 64)
 	if err != nil {
 		return nil, err
+	}
+	if math.IsNaN(delta) {
+		return nil, errInvalidScore
 	}
 	return kvsm.store.ZIncrBy(ts, cmd.Args[1], delta, cmd.Args[3])
 }
